@@ -78,6 +78,9 @@ def c01(ctx):
     ctx.run_vh("alg", ["-in", bh, "-bindings", 3 if q else 12, "-max", 2500 if q else 0, "-maxslow", 250 if q else 8000])
     sim = gen_algebra(ctx, "law", 5, "C01_gen_sim", simulate="num=%d" % (30 if q else 600), depth=5)
     ctx.run_vh("alg", ["-in", sim, "-bindings", 2 if q else 6, "-max", 0 if q else 5000, "-maxslow", 60 if q else 1500])
+    # the groups of the constantTime build configuration (Ed25519, CIRCL) on that build
+    ct = ctx.build(tags="verif,constantTime")
+    ctx.run_vh("alg", ["-in", bh, "-bindings", 2 if q else 6, "-max", 1500 if q else 0, "-maxslow", 150 if q else 4000], binary=ct)
     return ctx.finish("model_checking",
                       "behaviour = operand-class pool (11 scalar classes x 8 point classes squared) + group/scalar-action operations on unaliased destinations (exhaustive single ops, simulated chains of 4) x 21 group instances x bindings of u; each result must equal the canonical-route value of the abstract result, which TLC has shown to satisfy the abelian-group and scalar-action laws on all operand classes",
                       ASSUME_LIFT, exhaustive=False)
